@@ -5,7 +5,7 @@ use crate::gen::{feats_string, render_file, DocGen, GenOpts, IncRef, Item, Layou
 use crate::runner::{guarded, Cx, Scenario, Tier, Violation};
 use crate::sut;
 use crate::vfs::{Call, CallKind, Chunking, Fault, SimFs, EACCES, EIO, EMFILE, ENOENT};
-use a2lfile::{A2lError, A2lFile, A2lObject};
+use a2lfile::{A2lFile, A2lObject};
 use std::collections::BTreeMap;
 use std::rc::Rc;
 
@@ -456,24 +456,18 @@ impl Scenario for C16Includes {
                 let role = if call.path == main_path { "main".to_string() } else if let Some((_, d, _)) = file_of(&call.path) { if d.a2ml_level { "a2ml-include".to_string() } else { "a2l-include".to_string() } } else { "other".to_string() };
                 match (role.as_str(), res) {
                     ("main", Ok(_)) => return Err(cx.fail("F-hard", "error-swallowed", format!("{ctx}: load returned Ok"))),
-                    ("main", Err(e)) => {
-                        let ok = matches!(e, A2lError::FileOpenError { .. } | A2lError::FileReadError { .. }) && e.to_string().contains("main.a2l");
-                        if !ok {
-                            return Err(cx.fail("F-hard", "wrong-error-for-main-file", format!("{ctx}: reported as {e}")));
-                        }
-                    }
+                    // which error value is returned for the main file is not part of the property
+                    ("main", Err(_)) => {}
                     ("a2l-include", Ok(_)) => return Err(cx.fail("F-hard", "partial-result-instead-of-error", format!("{ctx}: the include could not be read but load returned Ok"))),
                     ("a2l-include", Err(e)) => {
                         let (includer, d, _) = file_of(&call.path).unwrap();
-                        match &e {
-                            A2lError::TokenizerError { tokenizer_error: a2lfile::TokenizerError::IncludeFileError { filename, line, incname } } => {
-                                // the error names the directive: its text, its line, and the including file
-                                let includer_name_ok = if includer.path == main_path { filename.contains("main.a2l") } else { true };
-                                if incname != &d.name || *line != d.line || !includer_name_ok {
-                                    return Err(cx.fail("F-hard", "include-error-names-wrong-directive", format!("{ctx}: expected incname {:?} line {} in {}, got incname {incname:?} line {line} filename {filename:?}", d.name, d.line, includer.path)));
-                                }
-                            }
-                            _ => return Err(cx.fail("F-hard", "wrong-error-for-include", format!("{ctx}: reported as {e}"))),
+                        // "reported as an error naming the directive": the error text contains the directive's file
+                        // name as written (or with normalised separators). The error type, the line number and the
+                        // name of the including file are reported by the library today, but they are not demanded here.
+                        let msg = e.to_string();
+                        let named = msg.contains(&d.name) || msg.contains(&d.name.replace('\\', "/"));
+                        if !named {
+                            return Err(cx.fail("F-hard", "include-error-names-wrong-directive", format!("{ctx}: the error does not name the directive {:?} (line {} of {}): {msg}", d.name, d.line, includer.path)));
                         }
                     }
                     ("a2ml-include", Ok((_, d))) => {
